@@ -16,6 +16,8 @@ NOTE = ("Trusted: bitarray C extension (replaced by a model that is differential
 
 # property -> (technique, design section, extra note) ; None = not yet claimed
 CLAIMED = {
+    'C02': ("symbolic execution (CrossHair/z3) of every creation and reading route per dtype/width; value is one solver variable", "DESIGN.md 5/C02", ""),
+    'C15': ("symbolic execution (CrossHair/z3): total classification of (dtype, length, value) into exact success or CreationError", "DESIGN.md 5/C15", ""),
     'C07': ("symbolic execution (CrossHair/z3) of find/rfind/findall/in/startswith/endswith/count/cut/split against a declarative brute-force definition", "DESIGN.md 5/C07", ""),
     'C06': ("symbolic execution (CrossHair/z3) of every stream operation, one step from an arbitrary (content, pos), with position invariant", "DESIGN.md 5/C06", ""),
     'C03': ("symbolic execution (CrossHair/z3) of every mutator, one step from an arbitrary state, against sequence-level oracles", "DESIGN.md 5/C03", ""),
